@@ -1235,3 +1235,12 @@ MANIFEST_TEXT["C06"]["text"] += (" Handing a (re-)queued frame to the transmit t
                                  "wake_then_publish_strands_counterexample, publish_wake_order_sites (T1: every site of /repo that makes a frame Sendable calls "
                                  "wake_sender() after publishing and before awaiting).")
 PROPS["C06"]["modelled"] += "; the publish/wake hand-over to the transmit task (TxWake.lean) with the order of the two statements regenerated from every publishing site"
+
+# C05 under concurrency (added after seed C05e: the marker re-check after the copy)
+PROPS["C05"]["harness"].append("c05m")
+PROPS["C05"].setdefault("drivers", {})["c05m"] = "drv_micro"
+PROPS["C05"]["rule"] += (" || c05m: the schedule-controlled runs of the real PDU loop (requests of other tasks dropped and their slots reused between the "
+                         "receive side's lookup and its claim; duplicates and noise), judged by the receive side's own clauses only: the "
+                         "contents of a slot when the receive side hands its claim back (frame rejected) equal the contents at the claim; no panic")
+PROPS["C05"]["assumptions"] = [a for a in PROPS["C05"]["assumptions"] if not a.startswith("sequential delivery")] + [
+    "the sequential harness delivers frames between whole API calls; interleavings of receive_frame with other tasks are exercised by c05m (and C01/C02)"]
